@@ -4,5 +4,5 @@ P="$1"; PROPS="${2:-all}"
 D=$(mktemp -d /var/tmp/grpchan-try.XXXXXX)
 rsync -a --exclude .git /repo/ "$D/"
 (cd "$D" && git apply --whitespace=nowarn "$P") || { echo "patch does not apply"; rm -rf "$D"; exit 2; }
-/verif/bin/grpchanlint -prop "$PROPS" -repo "$D" -no-evidence -verif /verif 2>&1 | grep -E '^\S+:[0-9]+: \[|^-: \[|CHECK-ERROR'
+${GRPCHANLINT_BIN:-/verif/bin/grpchanlint} -prop "$PROPS" -repo "$D" -no-evidence -verif /verif 2>&1 | grep -E '^\S+:[0-9]+: \[|^-: \[|CHECK-ERROR'
 rm -rf "$D"
